@@ -379,6 +379,9 @@ def check_map(combo, R, tier):
                         R.use("binding:%d" % bi)
                         if p.startswith("//"):
                             R.use("hostile-redirected")
+                        if chain[0][:1] == ("merge",) and not problems and \
+                                any(a.kind == "M" and not a.rule.merge for a in ref.admissions(pn)):
+                            R.count("merge_optout_rule_redirected")   # observed, accepted either way (see routing_ref)
                         if problems:
                             fd = any(x.startswith("final-") for x in problems) and \
                                 fd_explains(ref, pn, method, first[1], b)
